@@ -165,6 +165,16 @@ QuatBranch(R) == IF Trace(R) >= 0 THEN "trace"
                  ELSE IF R[1][1] >= Max2(R[2][2], R[3][3]) THEN "x-largest"
                  ELSE IF R[2][2] >= R[3][3] THEN "y-largest" ELSE "z-largest"
 
+\* second operands of the pair laws and pair cases: the whole group, and matrices of every determinant -4..4
+\* (singular, reflections, shears, ...)
+Partner3 == Rot \cup {Diag(<<1, 1, -1>>), Diag(<<-1, -1, -1>>), Diag(<<0, 1, 1>>), Diag(<<0, 0, 0>>),
+                      << <<1, 1, 0>>, <<0, 1, 1>>, <<0, 0, 1>> >>, << <<1, 0, 0>>, <<-1, 1, 0>>, <<1, -1, 1>> >>,
+                      << <<1, 1, 1>>, <<1, 1, 1>>, <<1, 1, 1>> >>, << <<1, -1, 0>>, <<1, 1, 0>>, <<0, 0, 1>> >>,
+                      << <<1, 1, 0>>, <<-1, 1, 1>>, <<0, -1, 1>> >>, << <<1, 1, 0>>, <<1, -1, 1>>, <<0, 1, 1>> >>,
+                      << <<1, 1, -1>>, <<-1, 1, 1>>, <<1, -1, 1>> >>, << <<-1, 1, 1>>, <<1, -1, 1>>, <<1, 1, -1>> >>,
+                      << <<0, 1, 1>>, <<1, 0, 1>>, <<1, 1, 0>> >>, << <<1, -1, 1>>, <<0, 0, 1>>, <<-1, -1, 0>> >>,
+                      << <<-1, -1, 1>>, <<1, -1, -1>>, <<-1, 1, -1>> >>, << <<-1, 1, 0>>, <<-1, -1, 0>>, <<0, 0, -1>> >>}
+
 \* ---------------------------------------------------------------------------
 \* Hurwitz unit quaternions, components doubled: h = <<2r, 2i, 2j, 2k>>
 \* ---------------------------------------------------------------------------
